@@ -135,7 +135,7 @@ package age
 //@   ensures#wrongkey (block.Type == "X25519" && len(block.Args) == 1 && b64rawok(block.Args[0]) && len(unb64raw(block.Args[0])) == 32 && x25519ok(bytes(i.secretKey), unb64raw(block.Args[0])) && len(block.Body) == 32 && !openok(x25519Key(x25519(bytes(i.secretKey), unb64raw(block.Args[0])), unb64raw(block.Args[0]), bytes(i.ourPublicKey)), zeros(12), bytes(block.Body))) ==> err == ErrIncorrectIdentity   [C04]
 //@   ensures#ok err == nil ==> block.Type == "X25519" && len(fk) == 16 && bytes(fk) == open(x25519Key(x25519(bytes(i.secretKey), unb64raw(block.Args[0])), unb64raw(block.Args[0]), bytes(i.ourPublicKey)), zeros(12), bytes(block.Body))   [C01 C04]
 //@   ensures#frame i.secretKey == old(i.secretKey) && i.ourPublicKey == old(i.ourPublicKey)                                        [C20]
-//@   ensures#opens (block.Type == "X25519" && len(block.Args) == 1 && b64rawok(block.Args[0]) && len(unb64raw(block.Args[0])) == 32 && x25519ok(bytes(i.secretKey), unb64raw(block.Args[0])) && len(block.Body) == 32 && openok(x25519Key(x25519(bytes(i.secretKey), unb64raw(block.Args[0])), unb64raw(block.Args[0]), bytes(i.ourPublicKey)), zeros(12), bytes(block.Body))) ==> err == nil   [C01]
+//@   ensures#opens (block.Type == "X25519" && len(block.Args) == 1 && b64rawok(block.Args[0]) && len(unb64raw(block.Args[0])) == 32 && x25519ok(bytes(i.secretKey), unb64raw(block.Args[0])) && len(block.Body) == 32 && openok(x25519Key(x25519(bytes(i.secretKey), unb64raw(block.Args[0])), unb64raw(block.Args[0]), bytes(i.ourPublicKey)), zeros(12), bytes(block.Body))) ==> err == nil   [C01 C05]
 //@   modifies nothing
 
 //@ pred scryptKeyOf(pw, salt16, logN) := scryptkdf(pw, cat(SCRYPTLABEL, salt16), pow2(logN), 8, 1, 32)
@@ -185,15 +185,15 @@ package age
 //@   ensures#frame i.password == old(i.password) && i.maxWorkFactor == old(i.maxWorkFactor)                                         [C20]
 //@   ensures#wrongkey (err != nil && $scryptcalls == old($scryptcalls) + 1 && len(block.Body) == 32) ==> err == ErrIncorrectIdentity   [C04]
 //@   ensures#ok err == nil ==> block.Type == "scrypt" && len(fk) == 16 && bytes(fk) == open(scryptKeyOf(bytes(i.password), unb64raw(block.Args[0]), atoi(block.Args[1])), zeros(12), bytes(block.Body))   [C01 C04]
-//@   ensures#opens (block.Type == "scrypt" && len(block.Args) == 2 && b64rawok(block.Args[0]) && len(unb64raw(block.Args[0])) == 16 && canondec(block.Args[1]) && atoi(block.Args[1]) <= i.maxWorkFactor && len(block.Body) == 32 && openok(scryptKeyOf(bytes(i.password), unb64raw(block.Args[0]), atoi(block.Args[1])), zeros(12), bytes(block.Body))) ==> err == nil   [C01]
+//@   ensures#opens (block.Type == "scrypt" && len(block.Args) == 2 && b64rawok(block.Args[0]) && len(unb64raw(block.Args[0])) == 16 && canondec(block.Args[1]) && atoi(block.Args[1]) <= i.maxWorkFactor && len(block.Body) == 32 && openok(scryptKeyOf(bytes(i.password), unb64raw(block.Args[0]), atoi(block.Args[1])), zeros(12), bytes(block.Body))) ==> err == nil   [C01 C05 C10]
 //@   modifies $scryptcalls
 
 //@ func (*ScryptIdentity).Unwrap(i, stanzas) (fk, err)
 //@   requires 1 <= i.maxWorkFactor && i.maxWorkFactor <= 30 && (forall j in 0..len(stanzas) :: stanzas[j] != nil)
 //@   loop 1 invariant -1 <= rangeindex && rangeindex < len(stanzas)
-//@   loop 1 invariant#noscrypt len(stanzas) != 1 ==> (forall j in 0..rangeindex+1 :: stanzas[j].Type != "scrypt")   [C10]
+//@   loop 1 invariant#noscrypt len(stanzas) != 1 ==> (forall j in 0..rangeindex+1 :: stanzas[j].Type != "scrypt")   [C10 C14]
 //@   loop 1 decreases len(stanzas) - rangeindex
-//@   ensures#alone (len(stanzas) != 1 && (exists j in 0..len(stanzas) :: stanzas[j].Type == "scrypt")) ==> fk == nil && err != nil && !wraps(err, ErrIncorrectIdentity) && $scryptcalls == old($scryptcalls)   [C10]
+//@   ensures#alone (len(stanzas) != 1 && (exists j in 0..len(stanzas) :: stanzas[j].Type == "scrypt")) ==> fk == nil && err != nil && !wraps(err, ErrIncorrectIdentity) && $scryptcalls == old($scryptcalls)   [C10 C14]
 //@   ensures#nil err != nil ==> fk == nil                                                                                           [C01 C04]
 //@   ensures#foreign (forall j in 0..len(stanzas) :: stanzas[j].Type != "scrypt") ==> err == ErrIncorrectIdentity   [C01 C04 C05]
 
@@ -244,7 +244,7 @@ package age
 
 //@ func newX25519RecipientFromPoint(publicKey) (r, err)
 //@   ensures#len err == nil <==> len(publicKey) == 32                                                                   [C09 C14]
-//@   ensures#val err == nil ==> r != nil && len(r.theirPublicKey) == 32 && bytes(r.theirPublicKey) == old(bytes(publicKey))   [C09]
+//@   ensures#val err == nil ==> r != nil && len(r.theirPublicKey) == 32 && bytes(r.theirPublicKey) == old(bytes(publicKey))   [C09 C01 C04]
 //@   ensures#nil err != nil ==> r == nil
 //@   fresh r when err == nil
 //@   modifies nothing
@@ -319,7 +319,7 @@ package age
 //@   ensures#nil err != nil ==> fk == nil                                                                                           [C01 C04]
 //@   ensures#foreign (forall j in 0..len(stanzas) :: stanzas[j].Type != "X25519") ==> err == ErrIncorrectIdentity                   [C01 C04 C05]
 //@   ensures#ok1 (len(stanzas) == 1 && err == nil) ==> stanzas[0].Type == "X25519" && len(fk) == 16 && bytes(fk) == open(x25519Key(x25519(bytes(i.secretKey), unb64raw(stanzas[0].Args[0])), unb64raw(stanzas[0].Args[0]), bytes(i.ourPublicKey)), zeros(12), bytes(stanzas[0].Body))   [C01]
-//@   ensures#opens1 (len(stanzas) == 1 && stanzas[0].Type == "X25519" && len(stanzas[0].Args) == 1 && b64rawok(stanzas[0].Args[0]) && len(unb64raw(stanzas[0].Args[0])) == 32 && x25519ok(bytes(i.secretKey), unb64raw(stanzas[0].Args[0])) && len(stanzas[0].Body) == 32 && openok(x25519Key(x25519(bytes(i.secretKey), unb64raw(stanzas[0].Args[0])), unb64raw(stanzas[0].Args[0]), bytes(i.ourPublicKey)), zeros(12), bytes(stanzas[0].Body))) ==> err == nil   [C01]
+//@   ensures#opens1 (len(stanzas) == 1 && stanzas[0].Type == "X25519" && len(stanzas[0].Args) == 1 && b64rawok(stanzas[0].Args[0]) && len(unb64raw(stanzas[0].Args[0])) == 32 && x25519ok(bytes(i.secretKey), unb64raw(stanzas[0].Args[0])) && len(stanzas[0].Body) == 32 && openok(x25519Key(x25519(bytes(i.secretKey), unb64raw(stanzas[0].Args[0])), unb64raw(stanzas[0].Args[0]), bytes(i.ourPublicKey)), zeros(12), bytes(stanzas[0].Body))) ==> err == nil   [C01 C05]
 //@   ensures#frame i.secretKey == old(i.secretKey) && i.ourPublicKey == old(i.ourPublicKey)                                         [C20]
 //@   modifies nothing
 
